@@ -20,7 +20,7 @@ CONSTANTS MaxObs
 L0 == [obs |-> 0, rcache |-> 0, bwRecv |-> 0, bwSend |-> 0]
 Kinds == {"plainOK", "plainCancel", "plainExpire", "plainRst", "dupToken",
           "bwUpOK", "bwUpCancel", "bwUpRefused", "bwDownOK", "bwDownAbandon",
-          "obsOK", "obsCancel", "obsFail", "obsSilentCancel",
+          "obsOK", "obsCancel", "obsFail", "obsSilentCancel", "obsAckedCancel",
           "pingOK", "pingCancel", "oneWay",
           "srvReq", "srvReqNon", "srvReqNoResp", "srvBwUpAbandon", "srvBwDownAbandon",
           "tickEarly", "tickBw", "tickLate"}
